@@ -108,6 +108,11 @@ def eval_call(I, st, node):
     if isinstance(f, ast.Attribute) and ast.unparse(f) in ("helpers.deprecation_warning", "warnings.warn"):
         I.drops.add("deprecation warning")
         return NONE
+    if isinstance(f, ast.Name) and st.spec_depth > 0 and f.id in ("typeis", "mkval", "clock", "field_unchanged", "unchanged_except"):
+        # string literals naming a class / field are not program strings: keep them out of the Str constant pool
+        fv = I.eval(st, f)
+        args = [Val("Str", None) if (isinstance(a, ast.Constant) and isinstance(a.value, str)) else I.eval(st, a) for a in node.args]
+        return call_value(I, st, fv, args, {}, node)
     fv = I.eval(st, f)
     # Decimal(f"1e-{precision}")
     if fv.ty == "Type" and fv.term[0] == "external" and fv.term[1].endswith("Decimal") and len(node.args) == 1 \
@@ -641,6 +646,8 @@ class Every:
         return st.cls_is(o, self.cls)
 
     def covers_content(self, I, st, r):
+        if REG.get(self.cls).kind != "object":
+            return st.cls_is(r, self.cls)        # every(ValueMap): the containers themselves
         fids = []
         for n in set(REG.subclass_names(self.cls)) | {self.cls}:
             for attr, fty in REG.get(n).all_fields(REG).items():
